@@ -63,6 +63,9 @@ type SolverCfg struct {
 
 var Solvers = []SolverCfg{
 	{"z3-5.1.0", "z3", func(f string, t, seed int) []string { return []string{"z3-new", "-T:" + fmt.Sprint(t), f} }},
+	{"z3-5.1.0-nonra", "z3", func(f string, t, seed int) []string {
+		return []string{"z3-new", "-T:" + fmt.Sprint(t), "smt.arith.nl.nra=false", f}
+	}},
 	{"z3-4.8.12", "z3", func(f string, t, seed int) []string { return []string{"z3", "-T:" + fmt.Sprint(t), f} }},
 	{"cvc5-1.0.3", "cvc5", func(f string, t, seed int) []string {
 		return []string{"cvc5", "--lang", "smt2", "--tlimit", fmt.Sprint(t * 1000), "--seed", fmt.Sprint(seed), f}
